@@ -29,7 +29,8 @@ META = dict(
 # composition vectors: (element 1, element 2, charge[, element 3])
 VEC_Q = [(a, b, 0) for a in (0, 1, 2) for b in (0, 1, 2) if (a, b) != (0, 0)] + [(1, 0, 1), (0, 1, -1), (1, 1, -1), (0, 0, -1)]
 VEC_T = VEC_Q + [(3, 0, 0), (0, 3, 0), (3, 1, 0), (1, 3, 0), (2, 3, 0), (Fr(3, 2), 1, 0), (1, Fr(1, 2), 0), (2, 0, 2)]
-FORMULAS = ["H2", "O2", "H2O", "H2O2", "CO", "CO2", "CH4", "C2H2", "C", "Fe", "FeO", "Fe2O3", "Fe+3", "Fe+2", "e-", "H+", "OH-"]
+FORMULAS = ["H2", "O2", "H2O", "H2O2", "CO", "CO2", "CH4", "C2H2", "C", "Fe", "FeO", "Fe2O3", "Fe+3", "Fe+2", "e-", "H+", "OH-",
+            "CaSO4", "CaSO4(H2O)0.5", "CaSO4(H2O)2", "Fe(OH)2.5"]  # decimal subscripts: non-integral compositions
 MODES = (True, False, None)
 
 
@@ -228,7 +229,21 @@ def _precheck_stops(A, nR):
     return False
 
 
-def check_instance(res, layer, R, P, tier, modes=MODES, dup=False):
+def check_instance(res, layer, R, P, tier, modes=MODES, dup=False, orders=("fwd", "rev")):
+    """both written orders of the species within each side (the answer is a property of the species *sets*); the reversed
+    order is run for the instances the linear algebra decides (the one-sided pre-check does not depend on the order)"""
+    cls = None
+    for order in orders:
+        if order == "rev":
+            if layer == "L" or cls == "trivially-infeasible" or (len(R) < 2 and len(P) < 2):
+                continue
+            cls = _check_instance(res, layer, tuple(R)[::-1], tuple(P)[::-1], tier, modes, order)
+        else:
+            cls = _check_instance(res, layer, R, P, tier, modes, order)
+    return cls
+
+
+def _check_instance(res, layer, R, P, tier, modes, order):
     import sympy
     from chempy import balance_stoichiometry
 
@@ -245,7 +260,7 @@ def check_instance(res, layer, R, P, tier, modes=MODES, dup=False):
         res.evaluations += 1
         if not trivial:
             res.nontrivial += 1
-        case = dict(layer=layer, R=list(R), P=list(P), mode=repr(mode), tier=tier)
+        case = dict(layer=layer, R=list(R), P=list(P), mode=repr(mode), tier=tier, order=order)  # R, P as written
         kw = dict(underdetermined=mode)
         if subs is not None:
             kw["substances"] = subs
@@ -307,8 +322,9 @@ def check_instance(res, layer, R, P, tier, modes=MODES, dup=False):
             if what == "infeasible-but-returned-parametric":
                 # instance-level key: this class is a recorded finding (known_findings.json lists every instance of
                 # the explored space), so that any *other* instance is still reported
-                key += "|%s>%s" % ("+".join("(%s)" % ",".join(t) for t in _show(layer, R, tier)) if layer != "F" else "+".join(_show(layer, R, tier)),
-                                   "+".join("(%s)" % ",".join(t) for t in _show(layer, P, tier)) if layer != "F" else "+".join(_show(layer, P, tier)))
+                Rs, Ps = tuple(sorted(R)), tuple(sorted(P))  # the key names the species sets (index order), whatever the written order
+                key += "|%s>%s" % ("+".join("(%s)" % ",".join(t) for t in _show(layer, Rs, tier)) if layer != "F" else "+".join(_show(layer, Rs, tier)),
+                                   "+".join("(%s)" % ",".join(t) for t in _show(layer, Ps, tier)) if layer != "F" else "+".join(_show(layer, Ps, tier)))
             res.violation(key, "balance_stoichiometry(%s -> %s, underdetermined=%r) %s: %s [%s]" % (_show(layer, R, tier), _show(layer, P, tier), mode, out[0], out[1:], what), case, out, cls)
     if res.states % 499 < len(modes):
         res.sample(dict(layer=layer, reactants=_show(layer, R, tier), products=_show(layer, P, tier), cls=cls, nullity=len(ns)), limit=2)
@@ -413,7 +429,7 @@ def replay(case):
         check_duplicates(res, tuple(case["R"]), tuple(case["P"]), tier)
     else:
         mode = {"True": True, "False": False, "None": None}[case["mode"]]
-        check_instance(res, case["layer"], tuple(case["R"]), tuple(case["P"]), tier, modes=(mode,))
+        _check_instance(res, case["layer"], tuple(case["R"]), tuple(case["P"]), tier, (mode,), case.get("order", "fwd"))
     if res.violations:
         v = res.violations[0]
         return dict(key=v["key"], what=v["what"], observed=v["observed"], expected=v["expected"])
